@@ -14,6 +14,9 @@ const preludeCommon = `
 (declare-datatypes ((Slice 0)) (((mkslice (sbase Int) (soff Int) (slen Int) (scap Int)))))
 (declare-sort Iface 0)
 (declare-sort Bytes 0)
+(declare-fun u_blen (Bytes) Int)
+(declare-fun bsub (Bytes Int Int) Bytes)
+(assert (forall ((b Bytes) (o Int) (l Int)) (! (=> (>= l 0) (= (u_blen (bsub b o l)) l)) :pattern ((bsub b o l)))))
 (declare-const inil Iface)
 (declare-fun itag (Iface) Int)
 (assert (= (itag inil) 0))
@@ -43,7 +46,7 @@ const preludeCommon = `
 (define-fun gomod ((a Int) (b Int)) Int (- a (* b (godiv a b))))
 (declare-fun eref (Slice Int) Ref)
 (assert (forall ((s Slice) (i Int)) (! (= (eref s i) (elem (sbase s) (+ (soff s) i))) :pattern ((eref s i)))))
-(define-fun validslice ((s Slice)) Bool (and (<= (scap s) 9223372036854775807) (>= (slen s) 0) (>= (soff s) 0) (>= (scap s) (slen s)) (>= (sbase s) 0) (=> (= (sbase s) 0) (= s nilslice))))
+(define-fun validslice ((s Slice)) Bool (and (<= (scap s) 281474976710656) (>= (slen s) 0) (>= (soff s) 0) (>= (scap s) (slen s)) (>= (sbase s) 0) (=> (= (sbase s) 0) (= s nilslice))))
 `
 
 const preludeStrAbstract = `
@@ -91,7 +94,7 @@ type smtCtx struct {
 func newSmtCtx(strMode bool) *smtCtx {
 	return &smtCtx{declared: map[string]bool{}, svSort: map[string]string{}, strLits: map[string]string{},
 		strMode: strMode, typeTags: map[string]int{}, boxFns: map[string]bool{}, sorts: map[string]bool{"Bytes": true}, globals: map[string]int{},
-		ufuncs: map[string]string{}}
+		ufuncs: map[string]string{"u_blen": "(Bytes) Int", "bsub": "(Bytes Int Int) Bytes"}}
 }
 
 func sanitize(s string) string {
